@@ -217,30 +217,23 @@ Proof.
   rewrite <- (Hs (length D - S (Z.to_nat j))%nat) by lia. f_equal. lia.
 Qed.
 
-(* [kk] = number of history bytes handed to the one-call theorem: 65536, or 65535 when the decoder
-   runs in withPrefix64k mode on a prefix of exactly 65535 bytes *)
-Lemma session_step_k (kk : Z) fastloop am st H pok dest cap (B D : list Z) :
+(* (i) the segments the selected mode designates hold the [kk] most recent history bytes *)
+Lemma designated_view (kk : Z) am st H pok dest cap n :
   kk = 65535 \/ kk = 65536 ->
   (kk = 65535 -> sd_prefixSize st <> 0 /\ sd_prefixEnd st = dest /\ 65535 <= sd_prefixSize st) ->
   (kk = 65536 -> sd_prefixSize st <> 0 -> sd_prefixEnd st = dest -> 65535 <= sd_prefixSize st ->
    Z.min 65536 (Z.of_nat (length H)) <= sd_prefixSize st \/ sd_prefixSize st < 65535) ->
-  sess_inv am st H pok -> call_geom st pok (Z.of_nat (length H)) dest cap (Z.of_nat (length D)) ->
-  strict_valid (lastn (Z.to_nat kk) H) B = Some D -> bytes B ->
-  let '(r, am', st', k) := decompress_safe_continue fastloop am st (mem_of_list 0 B) (Z.of_nat (length B)) dest cap in
-  r = Z.of_nat (length D) /\ load_list am' dest (Z.to_nat r) = D /\
-  st' = sess_next st dest (Z.of_nat (length D)) /\
-  sess_inv am' st' (H ++ D) (pok_next st pok dest (Z.of_nat (length D))).
+  sess_inv am st H pok -> call_geom st pok (Z.of_nat (length H)) dest cap n ->
+  out_at (stream_view am st dest) 0 (rev (lastn (Z.to_nat kk) H)) /\
+  Z.of_nat (length (lastn (Z.to_nat kk) H)) <= stream_avail st dest.
 Proof.
-  intros Hkk Hk1 Hk2 (Hps & Heds & HpsH & Hz & Pw & Ew) (Hn & G) Hv Hb.
+  intros Hkk Hk1 Hk2 (Hps & Heds & HpsH & Hz & Pw & Ew) (Hn & G).
   set (hist := lastn (Z.to_nat kk) H).
   assert (Hhl : Z.of_nat (length hist) = Z.min kk (Z.of_nat (length H))).
   { unfold hist. rewrite lastn_length. lia. }
   assert (Hnth : forall j : nat, Z.of_nat j < Z.of_nat (length hist) -> nth j (rev hist) 0 = nth (Z.to_nat (Z.of_nat j)) (rev H) 0).
   { intros j Hj. rewrite Nat2Z.id. unfold hist. apply nth_rev_lastn; lia. }
-  pose proof (continue_step fastloop am st (mem_of_list 0 B) B hist D dest cap Hps Heds) as CS.
-  pose proof (continue_shape fastloop am st (mem_of_list 0 B) (Z.of_nat (length B)) dest cap) as SH.
-  assert (Hview : out_at (stream_view am st dest) 0 (rev hist) /\ Z.of_nat (length hist) <= stream_avail st dest).
-  { unfold stream_view, stream_avail. cbv zeta in G.
+  unfold stream_view, stream_avail. cbv zeta in G.
     destruct (sd_prefixSize st =? 0) eqn:E0.
     - split; [|lia]. intros j Hj. rewrite rev_length in Hj. lia.
     - destruct (sd_prefixEnd st =? dest) eqn:Epe.
@@ -258,22 +251,23 @@ Proof.
       + destruct G as [G1 G2]. split; [|lia].
         intros j Hj. rewrite rev_length in Hj.
         rewrite Hnth by lia.
-        replace (sd_prefixEnd st + (0 - 1 - Z.of_nat j)) with (sd_prefixEnd st - 1 - Z.of_nat j) by lia. apply Pw. lia. }
-  destruct Hview as [Hv1 Hv2].
-  specialize (CS Hv1 Hv2).
-  rewrite (lastn_all (Z.to_nat 65536) hist) in CS by lia.
-  specialize (CS Hv Hb (src_at_mem_of_list0 B) ltac:(lia)).
-  destruct (decompress_safe_continue fastloop am st (mem_of_list 0 B) (Z.of_nat (length B)) dest cap) as [[[r am'] st'] k].
-  destruct CS as (Hr & Hsrc & _). destruct SH as [Hout Hst]. subst r. clear Hnth Hv1 Hv2 Hhl. clear hist.
-  split; [reflexivity|]. split; [rewrite Nat2Z.id; apply load_list_src_at; exact Hsrc|]. split; [exact Hst|].
-  (* the invariant after the call *)
+        replace (sd_prefixEnd st + (0 - 1 - Z.of_nat j)) with (sd_prefixEnd st - 1 - Z.of_nat j) by lia. apply Pw. lia.
+Qed.
+
+(* (ii) a call that changes the arena only inside [dest, dest+cap) and leaves D at dest re-establishes the invariant *)
+Lemma inv_after am am' st H pok dest cap (D : list Z) :
+  sess_inv am st H pok -> call_geom st pok (Z.of_nat (length H)) dest cap (Z.of_nat (length D)) ->
+  (forall x, x < dest \/ dest + cap <= x -> get am' x = get am x) -> src_at am' dest D ->
+  sess_inv am' (sess_next st dest (Z.of_nat (length D))) (H ++ D) (pok_next st pok dest (Z.of_nat (length D))).
+Proof.
+  intros (Hps & Heds & HpsH & Hz & Pw & Ew) (Hn & G) Hout Hsrc.
   set (n := Z.of_nat (length D)) in *.
   assert (Hnew : forall j, 0 <= j < n -> get am' (dest + n - 1 - j) = nth (Z.to_nat j) (rev D) 0).
   { intros j Hj. apply src_at_rev; [exact Hsrc | exact Hj]. }
   assert (HlenH' : Z.of_nat (length (H ++ D)) = Z.of_nat (length H) + n) by (rewrite app_length; lia).
   assert (HD0 : n = 0 -> H ++ D = H).
   { intros Hn0. destruct D; [apply app_nil_r | cbn [length] in n; lia]. }
-  subst st'. unfold sess_next, fail_state, next_state, pok_next, sess_inv. cbv zeta in G |- *.
+  unfold sess_next, fail_state, next_state, pok_next, sess_inv. cbv zeta in G |- *.
   destruct (sd_prefixSize st =? 0) eqn:E0.
   - (* first call *)
     destruct (Hz ltac:(lia)) as [Hed0 HH0]. subst H. cbn [length] in *.
@@ -326,6 +320,34 @@ Proof.
            replace (sd_prefixEnd st - sd_prefixSize st + sd_prefixSize st - 1 - j) with (sd_prefixEnd st - 1 - j) by lia.
            rewrite Hpre by lia. rewrite Pw by lia.
            rewrite nth_rev_app by lia. fold n. assert (E : (n + j <? n) = false) by lia. rewrite E. f_equal. lia.
+Qed.
+
+(* [kk] = number of history bytes handed to the one-call theorem: 65536, or 65535 when the decoder
+   runs in withPrefix64k mode on a prefix of exactly 65535 bytes *)
+Lemma session_step_k (kk : Z) fastloop am st H pok dest cap (B D : list Z) :
+  kk = 65535 \/ kk = 65536 ->
+  (kk = 65535 -> sd_prefixSize st <> 0 /\ sd_prefixEnd st = dest /\ 65535 <= sd_prefixSize st) ->
+  (kk = 65536 -> sd_prefixSize st <> 0 -> sd_prefixEnd st = dest -> 65535 <= sd_prefixSize st ->
+   Z.min 65536 (Z.of_nat (length H)) <= sd_prefixSize st \/ sd_prefixSize st < 65535) ->
+  sess_inv am st H pok -> call_geom st pok (Z.of_nat (length H)) dest cap (Z.of_nat (length D)) ->
+  strict_valid (lastn (Z.to_nat kk) H) B = Some D -> bytes B ->
+  let '(r, am', st', k) := decompress_safe_continue fastloop am st (mem_of_list 0 B) (Z.of_nat (length B)) dest cap in
+  r = Z.of_nat (length D) /\ load_list am' dest (Z.to_nat r) = D /\
+  st' = sess_next st dest (Z.of_nat (length D)) /\
+  sess_inv am' st' (H ++ D) (pok_next st pok dest (Z.of_nat (length D))).
+Proof.
+  intros Hkk Hk1 Hk2 Hinv Hg Hv Hb.
+  destruct (designated_view kk am st H pok dest cap _ Hkk Hk1 Hk2 Hinv Hg) as [Hv1 Hv2].
+  assert (Hl : Z.of_nat (length (lastn (Z.to_nat kk) H)) <= 65536) by (rewrite lastn_length; lia).
+  pose proof (continue_step fastloop am st (mem_of_list 0 B) B (lastn (Z.to_nat kk) H) D dest cap
+                ltac:(apply Hinv) ltac:(apply Hinv) Hv1 Hv2) as CS.
+  rewrite (lastn_all (Z.to_nat 65536) (lastn (Z.to_nat kk) H)) in CS by lia.
+  specialize (CS Hv Hb (src_at_mem_of_list0 B) ltac:(destruct Hg; lia)).
+  pose proof (continue_shape fastloop am st (mem_of_list 0 B) (Z.of_nat (length B)) dest cap) as SH.
+  destruct (decompress_safe_continue fastloop am st (mem_of_list 0 B) (Z.of_nat (length B)) dest cap) as [[[r am'] st'] k].
+  destruct CS as (Hr & Hsrc & _). destruct SH as [Hout Hst]. subst r.
+  split; [reflexivity|]. split; [rewrite Nat2Z.id; apply load_list_src_at; exact Hsrc|]. split; [exact Hst|].
+  subst st'. apply (inv_after am am' st H pok dest cap D Hinv Hg Hout Hsrc).
 Qed.
 
 Theorem session_step fastloop am st H pok dest cap (B D : list Z) :
